@@ -177,7 +177,6 @@ def parseOpPoints : Nat → Nat → Bits → Bool → Nat → Bool → Nat → N
 
 inductive Av1Res where
   | none
-  | panic            -- `assert_invariant!(seq_profile <= 3)` (INV-204)
   | some (c : Av1Config)
 deriving Repr, DecidableEq
 
@@ -257,7 +256,7 @@ def parseSequenceHeader (obu : Bytes) (hs : Nat) : Av1Res :=
   match rbits 3 bits with
   | none => .none
   | some (p, _) =>
-    if p > 3 then .panic else
+    if p > 3 then .none else
     match parseSeqHdrBits av1FixedDmi bits with
     | none => .none
     | some (profile, lvl, tier, cc) =>
